@@ -329,9 +329,18 @@ func (d *drv) udpProbe(addr string, k vKey) (int, error) {
 	if err != nil {
 		return 0, err
 	}
-	laddr := &net.UDPAddr{IP: net.ParseIP(clientIP)}
 	ra, _ := net.ResolveUDPAddr("udp", addr)
-	c, err := net.DialUDP("udp", laddr, ra)
+	var c *net.UDPConn
+	for i := 0; i < 200; i++ { // a local port never used before: associations are keyed by client address
+		d.nextPort++
+		if d.nextPort > 60000 {
+			d.nextPort = 33000
+		}
+		c, err = net.DialUDP("udp", &net.UDPAddr{IP: net.ParseIP(clientIP), Port: d.nextPort}, ra)
+		if err == nil {
+			break
+		}
+	}
 	if err != nil {
 		return 0, err
 	}
